@@ -119,4 +119,48 @@ def denied (seals : Nat) : MOp → Bool
   | .truncateGrow | .fallocateGrow => bitSet seals Gen.Consts.unix_F_SEAL_GROW
   | .addSeals => bitSet seals Gen.Consts.unix_F_SEAL_SEAL
 
+/-! ### removeContents (container/utils.go) on regenerated code: one directory read, every name removed -/
+
+structure CW where
+  entries : List String            -- the names the directory holds (whatever they look like)
+  failRm : List String := []       -- RemoveAll fails for these paths
+  openFails : Bool := false
+  removed : List String := []      -- paths handed to RemoveAll, latest first
+  readArgs : List Int := []        -- the counts the directory reads were made with
+
+/-- `Readdirnames(n)`: everything for n ≤ 0, at most n names otherwise (os.File's contract) -/
+def readNames (entries : List String) (n : Int) : List String :=
+  if n ≤ 0 then entries else entries.take n.toNat
+
+def cext (name : String) (args : List Val) (_ : Env) (w : CW) : Except String (Val × CW) :=
+  match name, args with
+  | "os.Open", [.str _] => .ok (.tup [.str "dir", if w.openFails then .str "EACCES" else .nil], w)
+  | "d.Readdirnames", [.int n] => .ok (.tup [.list ((readNames w.entries n).map Val.str), .nil], { w with readArgs := w.readArgs ++ [n] })
+  | "filepath.Join", [.str a, .str b] => .ok (.str (a ++ "/" ++ b), w)
+  | "os.RemoveAll", [.str p] => .ok (if w.failRm.contains p then .str "EBUSY" else .nil, { w with removed := p :: w.removed })
+  | _, _ => .error s!"unknown call {name}"
+
+/-- the regenerated removeContents (its deferred Close left out): (error reported, paths removed) -/
+def genRemoveContents (dir : String) (entries : List String) (failRm : List String := []) (openFails : Bool := false) :
+    Except String (Bool × List String) :=
+  let body := Gen.C13.removeContents.body.filter (fun s => match s with | .other "defer" => false | _ => true)
+  match runBody { ext := cext, glob := fun _ => none } [] body [("dir", .str dir)] { entries := entries, failRm := failRm, openFails := openFails } 1000000 with
+  | .ok (some [v], _, w) => .ok (!Val.beq v .nil, w.removed.reverse)
+  | .ok (_, _, _) => .error "no result"
+  | .error e => .error e
+
+/-- the counts the regenerated removeContents reads the directory with -/
+def genReadCounts (dir : String) (entries : List String) : Except String (List Int) :=
+  let body := Gen.C13.removeContents.body.filter (fun s => match s with | .other "defer" => false | _ => true)
+  match runBody { ext := cext, glob := fun _ => none } [] body [("dir", .str dir)] { entries := entries } 1000000 with
+  | .ok (_, _, w) => .ok w.readArgs
+  | .error e => .error e
+
+/-- what the property needs: every entry is handed to RemoveAll, whatever its name; an error is
+reported iff the directory could not be opened or some removal failed -/
+def removesEverything (dir : String) (entries : List String) (failRm : List String := []) : Bool :=
+  match genRemoveContents dir entries failRm with
+  | .ok (e, r) => r == entries.map (fun n => dir ++ "/" ++ n) && e == entries.any (fun n => failRm.contains (dir ++ "/" ++ n))
+  | .error _ => false
+
 end GoSandbox.Model.Reset
